@@ -318,11 +318,13 @@ fn dnf_map_is_empty(bdd: &Rc<Bdd>, ctx: &mut SemTypeContext) -> (r: Result<IsEmp
     ensures ctx_defs(*final(ctx)) == ctx_defs(*old(ctx)),
             r is Ok ==> (r->Ok_0 == IsEmptyStatus::IsEmpty) == map_empty(**bdd, ctx_defs(*old(ctx))),
 { unimplemented!() }
+// #unless-take fn list_is_empty
 #[verifier::external_body]
 fn list_is_empty(bdd: &Rc<Bdd>, builder: &mut SemTypeContext) -> (r: Result<IsEmptyStatus>)
     ensures ctx_defs(*final(builder)) == ctx_defs(*old(builder)),
             r is Ok ==> (r->Ok_0 == IsEmptyStatus::IsEmpty) == list_empty(**bdd, ctx_defs(*old(builder))),
 { unimplemented!() }
+// #end
 
 pub open spec fn proper_empty(p: ProperSubtype, defs: Defs) -> bool {
     match p {
